@@ -93,7 +93,8 @@ type FuncContract struct {
 }
 
 type AnchoredAssert struct {
-	Anchor string // "after N" statement ordinal (top-level statements of body), or "loop N body"
+	By     []*CExpr // explicit lemma applications whose instances are hypotheses of this assertion only
+	Anchor string   // "after N" statement ordinal (top-level statements of body), or "loop N body"
 	Cl     Clause
 	Assume bool
 }
@@ -126,15 +127,16 @@ type GhostType struct {
 }
 
 type Lemma struct {
-	Name      string
-	Pkg       string
-	Params    []Param
-	Induction string
-	Requires  []Clause
-	Ensures   []Clause
-	Model     string
-	Trigger   []*CExpr
-	Uses      []string // earlier lemmas available as hypotheses in this lemma's proof
+	Name       string
+	Pkg        string
+	Params     []Param
+	Induction  string
+	SameParams bool // induction hypothesis only for the same values of the other parameters (a ground formula)
+	Requires   []Clause
+	Ensures    []Clause
+	Model      string
+	Trigger    []*CExpr
+	Uses       []string // earlier lemmas available as hypotheses in this lemma's proof
 }
 
 type PureDecl struct {
@@ -440,7 +442,14 @@ func parseContractFile(path, pkg string) (*ContractFile, error) {
 					return
 				}
 				k := strings.IndexAny(rest, " \t")
-				cur.Asserts = append(cur.Asserts, AnchoredAssert{Anchor: rest[1:k], Cl: parseClause(strings.TrimSpace(rest[k:]))})
+				body := strings.TrimSpace(rest[k:])
+				// optional explicit lemma applications:  ... by lemma(args), lemma(args)
+				var by []*CExpr
+				if j := strings.LastIndex(body, " by "); j >= 0 {
+					by = parseExprList(strings.TrimSpace(body[j+4:]))
+					body = strings.TrimSpace(body[:j])
+				}
+				cur.Asserts = append(cur.Asserts, AnchoredAssert{Anchor: rest[1:k], Cl: parseClause(body), By: by})
 			case "reads":
 				// informational
 			}
@@ -928,6 +937,10 @@ func parseLemmaDecl(text string) *Lemma {
 	if l.isID("induction") {
 		l.next()
 		lm.Induction = l.ident()
+		if l.isID("same") { // the other parameters keep their values in the induction hypothesis
+			l.next()
+			lm.SameParams = true
+		}
 	}
 	return lm
 }
